@@ -127,6 +127,11 @@ def check(ctx):
     t = ctx.drive(drv, script, "gstuff_rx")
     bad = ctx.judge("GstuffTrace", [t])
     for b in bad: b["driver"] = "drv_gstuff"
+    # the second build configuration (size-optimised, plain char unsigned) on a third of the executions
+    ta = ctx.drive(gc.build(ctx, alt=True), core.subset_executions(script, ctx.seed, 1.0 if ctx.thorough else 0.34), "gstuff_rx_alt")
+    bada = ctx.judge("GstuffTrace", [ta])
+    for b in bada: b["driver"] = "drv_gstuff@alt"
+    bad += bada
     ctx.report(bad)
     ctx.assumptions += [
         "exhaustive: product of the transcribed receiver automata and the monitor for capacities of GstuffMC*.cfg over the marker/escape bytes, two data bytes and the checksum-completing byte - streams of every length; bound to the code by status-by-status comparison (impl_status drift clause)",
@@ -139,7 +144,7 @@ def check(ctx):
 
 def replay(ctx, path):
     d = json.load(open(path))
-    drv = gc.build(ctx)
+    drv = gc.build(ctx, alt=core.is_alt(d))
     lines = []
     feed = []
     for e in d["execution"]:
